@@ -160,7 +160,11 @@ let () =
     while true do
       let line = input_line stdin in
       if String.length line > 0 && line.[0] <> '#' then begin
-        let toks = Array.of_list (split_ws line) in
+        let toks0 = Array.of_list (split_ws line) in
+        (* kS<n>: n concurrent lookups of the module on one Symbolizer: its per-module slot lets ONE of them call the
+           supplier (C12: c12_at_most_once), so the file system, the request log and the result are those of one lookup *)
+        let toks = if String.length toks0.(0) > 2 && String.sub toks0.(0) 0 2 = "kS"
+          then Array.sub toks0 1 (Array.length toks0 - 1) else toks0 in
         let pos = ref 0 in
         let next () = let t = toks.(!pos) in incr pos; t in
         (* not modelled (the oracle alone judges): locate_file lookups (first token k..), modules
@@ -188,7 +192,9 @@ let () =
         let enc r s = String.concat r (String.split_on_char ' ' s) in
         let target = Printf.sprintf "%s/%s/%s.sym?code_file=%s&code_id=%s" (enc "%20" dfs) id (enc "%20" stem) (enc "+" cfs)
             (if ci = "N" then "" else String.lowercase_ascii ci) in
-        let mk = env <> "c" in
+        (* create_dir_all fails: cache root below a regular file, or a regular file where a directory level is needed;
+           "x" (no cache root yet) succeeds: create_dir_all makes every level *)
+        let mk = env <> "c" && env <> "d" && env <> "i" in
         let cr = env <> "t" && env <> "m" && env <> "c" in
         let wlim = if env.[0] = 'w' then int_of_string (String.sub env 1 (String.length env - 1)) else -1 in
         let e = mk_env mk cr (z_of_int wlim) true true in
@@ -210,15 +216,18 @@ let () =
           if i = 0 && parts.(3) <> "-" then
             race := Some (unhex (String.sub parts.(3) 1 (String.length parts.(3) - 1)));
           let blen = List.length body in
+          (* framing M<decl>[,offsets]: the Content-Length header announces <decl> bytes whatever the body's length *)
+          let decl, offs = if fr.[0] = 'M' then (match offs with d :: r -> (d, r) | [] -> (blen, [])) else (blen, offs) in
+          let is_len = fr.[0] = 'L' || fr.[0] = 'S' || fr.[0] = 'M' in
           let (no_head, delivered, ending) =
-            if cut = "-" then (false, body, 0)
-            else if cut = "h" then (true, [], 1)
+            if cut = "h" then (true, [], 1)
             else
-              let k = min blen (int_of_string (String.sub cut 1 (String.length cut - 1))) in
+              let k = if cut = "-" then blen else min blen (int_of_string (String.sub cut 1 (String.length cut - 1))) in
               (* a close-delimited body that is cut is indistinguishable from a complete shorter one *)
-              if fr.[0] = 'E' && cut.[0] = 'c' then (false, firstn k body, 0)
-              (* Content-Length satisfied before the connection is closed *)
-              else if fr.[0] = 'L' && cut.[0] = 'c' && k >= blen then (false, body, 0)
+              if fr.[0] = 'E' && (cut = "-" || cut.[0] = 'c') then (false, firstn k body, 0)
+              (* Content-Length satisfied (the client stops reading there) before the connection is closed *)
+              else if is_len && (cut = "-" || cut.[0] = 'c') && k >= decl then (false, firstn decl body, 0)
+              else if cut = "-" && not is_len then (false, body, 0)
               else (false, firstn k body, 1) in
           let chunks = split_at delivered (List.sort compare offs) 0 in
           let url = bytes_of_string (Printf.sprintf "http://127.0.0.1:PORT%d/%s" i target) in
@@ -233,6 +242,16 @@ let () =
               let loc = Str.global_replace (Str.regexp_string "PORTSELF") (Printf.sprintf "PORT%d" i) loc in
               bytes_of_string (if has_scheme then loc else Printf.sprintf "http://127.0.0.1:PORT%d%s" i loc)
             end else url in
+          (* a chain that leads to a closed port or redirects to itself for ever: send() fails, no response at all *)
+          let dead_chain =
+            Array.length parts > 5 && String.length parts.(5) > 0 && parts.(5).[0] = 'V' &&
+            List.exists (fun h ->
+                let loc = String.concat "" (List.map (fun b -> String.make 1 (Char.chr (int_of_z b))) (unhex h)) in
+                let has x = (try ignore (Str.search_forward (Str.regexp_string x) loc 0); true with Not_found -> false) in
+                has "127.0.0.1:1/" || has "LOOP")
+              (List.tl (String.split_on_char ':' (String.sub parts.(5) 1 (String.length parts.(5) - 1)))) in
+          let (no_head, delivered, ending) = if dead_chain then (true, [], 1) else (no_head, delivered, ending) in
+          let chunks = if dead_chain then [] else chunks in
           infos := !infos @ [(status, no_head, delivered, List.map List.length chunks, ending, final_url)];
           scripts := !scripts @ [script_events (z_of_int status) no_head chunks (z_of_int ending)]
         done;
